@@ -326,6 +326,7 @@ def _upgrade():
     from .props_sched import upgrade
     upgrade(PROPS["C12"])
     upgrade(PROPS["C01"])
+    upgrade(PROPS["C13"])
 
 
 _upgrade()
